@@ -277,6 +277,8 @@ fn documents(thorough: bool) -> (Vec<String>, Vec<String>) {
         "10 X = \"😊\"", "10 PRINT \"é\"\r\n20 X$ = 1\r", " 10 PRINT \"é\" + 1", "10 INPUT é", "10 GOSUB 10: PRINT \"😊\" + Q$ + 1",
         "10 ? \"é\";: ? \"😊\" + 1", "10 NEXT é", "10 PRINT \"😊\"\n\n30 PRINT \"é\" + 1", "10 LET Z$ = \"é\" + \"😊\": LET Z = Z$", "10 PRINT NOT \"é\" + \"😊\"",
         "10 PRINT \"é\" = \"😊\" + 1", "10 DATA 😊:PRINT 1 +", "10 REM é\n10", "10 PRINT \"😊\" + 1\n10 PRINT \"", "10 IF 1 THEN PRINT \"é\" ELSE PRINT \"😊\" + 1",
+        // one UTF-16 unit, three UTF-8 bytes (U+0800..U+FFFF): CJK, euro sign, dashes, curly quotes
+        "10 PRINT \"日本語\" + 1", "10 REM 価格 € — x\n20 X$ = 1", "10 DATA 日本, \"€\", 3: PRINT 1 +", "10 PRINT \"“q”\";Z€", "10 PRINT \"末尾", "10 A$ = \"ꙮ\": B = A$ + \"\u{ffff}\" + 1",
     ];
     docs.extend(non_ascii.iter().map(|s| s.to_string()));
     let core: Vec<String> = menu
@@ -284,6 +286,7 @@ fn documents(thorough: bool) -> (Vec<String>, Vec<String>) {
         .take(22)
         .map(|s| s.to_string())
         .chain(non_ascii.iter().take(8).map(|s| s.to_string()))
+        .chain(non_ascii.iter().rev().take(3).map(|s| s.to_string()))
         .collect();
     (docs, core)
 }
@@ -364,6 +367,12 @@ pub fn run(thorough: bool) -> Report {
     for a in &core {
         for b in &core {
             hists.push(vec![Msg::Open(a.clone()), Msg::Change(b.clone()), Msg::Tokens]);
+        }
+    }
+    // the same document opened again with different text (editors do this after a reload)
+    for a in core.iter().step_by(2) {
+        for b in core.iter().skip(1).step_by(2) {
+            hists.push(vec![Msg::Open(a.clone()), Msg::Tokens, Msg::Open(b.clone()), Msg::Tokens]);
         }
     }
     if thorough {
